@@ -76,4 +76,18 @@ def ProvedClass (app : App) : Bool :=
   app.instrs.all (gInstr app) &&
   (app.instrs.all (fun i => !isDivRem i.instructionType) || app.instrs.all (fun i => !i.instructionType.IsConditionalBranch))
 
+/-- an instruction of the class with jumps (package R60c): no load/store, labels well-formed -/
+def jInstr (app : App) (i : Gen.Instr) : Bool :=
+  !isMemType i.instructionType && labelOk app i
+
+/-- the class the proofs of package R60c work with: no load/store, labels well-formed, and `div`/`rem` only in programs
+without branches and jumps (no wrong path).  It contains `ProvedClass` and `RegOnlyWf`. -/
+def JClass (app : App) : Bool :=
+  app.instrs.all (jInstr app) &&
+  (app.instrs.all (fun i => !isDivRem i.instructionType) || app.instrs.all (fun i => !i.instructionType.IsBranch))
+
+/-- `RegOnly` with well-formed labels (every label points to an instruction of the program or to its end: what the
+parser produces): register-only programs with branches, jumps, calls and `ret` (package R60c) -/
+def RegOnlyWf (app : App) : Bool := RegOnly app && app.instrs.all (labelOk app)
+
 end Model.Mvp60
